@@ -57,17 +57,17 @@ def prefix_fn(st, a):
                 st.assume(z3.ForAll([m], z3.Implies(z3.And(m >= -1, m < n), P(m) == Q1(m) + Q2(m)), patterns=[P(m)]))
             else:
                 st.assume(z3.ForAll([m], z3.Implies(z3.And(m >= -1, m < n), P(m) == Q1(m) - Q2(m)), patterns=[P(m)]))
+        elif kind == "sq" and isinstance(pv[1], Arr) and pv[1].ndim == 1:
+            # L-SUM-sq-pos: non-negative x with positive sum has positive sum of squares
+            x = pv[1]
+            Q = prefix_fn(st, x)
+            xi = z3.Int(fresh_name("i"))
+            xnn = z3.ForAll([xi], z3.Implies(z3.And(xi >= 0, xi < n), to_z3(x.at(xi), "real") >= 0))
+            st.assume(z3.Implies(z3.And(xnn, Q(n - 1) > 0), P(n - 1) > 0))
         elif kind == "copy" and isinstance(pv[1], Arr) and pv[1].ndim == 1:
             Q = prefix_fn(st, pv[1])
             st.assume(z3.ForAll([m], z3.Implies(z3.And(m >= -1, m < n), P(m) == Q(m)), patterns=[P(m)]))
     lst = st.ghost.get("sumarrs", [])
-    # L-SUM-cong against the sums already introduced on this path (same length)
-    for (b, Q) in lst[-6:]:
-        nb = to_z3(b.shape[0], "int")
-        j = z3.Int(fresh_name("j"))
-        same = z3.And(n == nb, z3.ForAll([j], z3.Implies(z3.And(j >= 0, j < n),
-                                                         to_z3(a.at(j), "real") == to_z3(b.at(j), "real"))))
-        st.assume(z3.Implies(same, z3.ForAll([m], z3.Implies(z3.And(m >= -1, m < n), P(m) == Q(m)), patterns=[P(m)])))
     st.ghost["sumarrs"] = lst + [(a, P)]
     return P
 
@@ -102,3 +102,17 @@ def maximum(st, a):
 def lse(st, a):
     e = Arr(a.shape, lambda i: real.exp(to_z3(a.at(i), "real")), "real", prov=("exp", a))
     return real.log(total(st, e))
+
+
+def cong_rule(st, a, b, label):
+    """L-SUM-cong as a proof rule: returns (premise, conclusion).  Premise: a and b have the same
+    length and are pointwise equal (checked as an obligation for a fresh index); conclusion (assumed
+    once the premise is discharged): their prefix sums coincide."""
+    Pa, Pb = prefix_fn(st, a), prefix_fn(st, b)
+    na, nb = to_z3(a.shape[0], "int"), to_z3(b.shape[0], "int")
+    i = z3.Int(fresh_name("ic"))
+    premise = z3.And(na == nb, z3.Implies(z3.And(i >= 0, i < na), to_z3(a.at(i), "real") == to_z3(b.at(i), "real")))
+    m = z3.Int(fresh_name("mc"))
+    concl = z3.ForAll([m], z3.Implies(z3.And(m >= -1, m < na), Pa(m) == Pb(m)), patterns=[Pa(m)])
+    concl2 = z3.ForAll([m], z3.Implies(z3.And(m >= -1, m < na), Pa(m) == Pb(m)), patterns=[Pb(m)])
+    return premise, z3.And(concl, concl2, Pa(na - 1) == Pb(nb - 1))
